@@ -18,7 +18,7 @@ RULE = (
     "Non-trivial = font with >= 1 multi-codepoint sequence; distinct = hash of (sequences, config)."
 )
 ASSUMPTIONS = ["identity is recovered with the COLR / SVG evaluators, outline bounds or stored PNG bytes", "mini-shaper implements cmap + ccmp ligature substitution only"]
-N = {"quick": 650, "thorough": 6500}
+N = {"quick": 1950, "thorough": 13000}
 ALL_FORMATS = ["glyf", "glyf_colr_0", "glyf_colr_1", "cff_colr_0", "cff_colr_1", "cff2_colr_0", "cff2_colr_1", "picosvg", "picosvgz", "untouchedsvg", "untouchedsvgz", "cbdt", "sbix"]
 ASPECTS = [(1, 4), (1, 2), (1, 1), (1, 1), (2, 1), (4, 1), (13, 10), (9, 10), (3, 4)]
 
